@@ -454,7 +454,11 @@ def run(ctx):
                        "doubles: every power of two (all 2046 exponents) and subnormal powers, powers of ten +-1ulp, random bit patterns, short decimals; "
                        "decimal literals with up to 400 digits incl. round-to-even midpoints; big integers built from limb edge values "
                        "{0,1,2^32-1,2^32,2^63,2^64-2,2^64-1} with borrow/carry chains. Oracle: Python exact integers and correctly rounded float(). "
-                       "non-trivial by length of the operand; distinct by op line")
+                       "non-trivial by length of the operand; distinct by op line. "
+                       "bigint-limbs: the modelled limb loops (*= word, *= bigint, +=, -=, <<=, >>=, string constructor, from_bytes_be, write_bytes_be, "
+                       "divide by one word, write_string) against the real member functions word for word, operands built from "
+                       "{0,1,2^32-1,2^32,2^32+1,2^64-1,2^64,2^64+1,2^128-1,2^128,2^192-1,all-ones words,zero words in the middle,10^19,10^38} "
+                       "x words {0,1,2,10,255,256,2^31,2^32-1,2^32,2^32+1,2^63,2^64-2,2^64-1,10^19} x shifts {0,1,31..33,63..65,127..129,191,192,256}")
     ctx.assumptions.append("Python's float()/repr are correctly rounded (IEEE-754 binary64) and Python int arithmetic is exact: used as the arithmetic oracle")
     rng = vlib.rng_for(ctx.seed, "c04")
     streams(ctx, rng, 1 if ctx.tier == "quick" else 12)
